@@ -431,3 +431,12 @@ LAWS = [
     Law("solids", lambda tier: solid_case(tier), run_solid, lambda c: any(c["v"][6:9]), lambda c: [c["what"]] + (["derived-from-a-used-object"] if c.get("derive") else []) + (["integer-typed-requested"] if c.get("intd") else []), {"quick": 1600, "thorough": 25000},
         "Segment.length/midpoint, Triangle area/volume/circumcenter/centroid, tetrahedron volume, Cuboid area and counts, RegularPolygon, polyhedron ==", shard=150),
 ]
+
+
+# ------------------------------------------------------------------------------------------- equivalent ways of asking
+from .. import forms as _forms  # noqa: E402
+
+LAWS.append(
+    Law("argument_forms", lambda tier: _forms.forms_case_strategy("C17")(tier), _forms.run_forms("C17"), lambda c: True, lambda c: [c["entry"], f"d{c['d']}"], {"quick": 600, "thorough": 8000},
+        "the same object asked for in several ways (positional / keyword arguments, other representatives of point arguments, int / float / numpy scalars, defaults given explicitly, symmetric argument orders): all forms agree", shard=300)
+)
